@@ -9,6 +9,7 @@ the tower took on, and reading back returns what was accepted.
 import TeosVerif.Lemmas.Tower
 import TeosVerif.Model.Admin
 import TeosVerif.Lemmas.TowerInv
+import TeosVerif.Lemmas.TowerRead
 
 namespace Teos.C08
 open Teos
@@ -268,5 +269,66 @@ theorem admin_user_is_what_the_user_sees (s : Tower) (u : User) (ui : UserInfo)
   · unfold adminUser; rw [hu]; rfl
   · unfold getSubscriptionInfo authCheck
     simp [hu, hne]
+
+
+/-! ### reading back, for whole histories -/
+
+/-- **stored_version_is_the_last_accepted**: start the tower on an empty database and run ANY valid history
+(any requests by any users, blocks, reorgs, node behaviour). In the state reached, every appointment row
+carries exactly the blob of the LAST submission the tower accepted (answered with a receipt) for that
+user and locator — `lastFor` reads the chronological ghost record of accepted submissions kept by `runG`.
+Nothing else ever writes a blob: the other operations only delete rows, an accepted update either
+replaces the row or takes it away (dropped as undecryptable or rejected), never leaves the old version
+behind. -/
+theorem stored_version_is_the_last_accepted (cfg : Cfg) (height : Nat) (blocks : List (Nat × List TxId))
+    (hnd : (blocks.map (·.1)).Nodup) (hist : List (Node × Op))
+    (hv : HistoryValid cfg (boot Db.empty height blocks) hist) (k : Uuid) (a : Appt) :
+    let start : Tower × Ghost := (boot Db.empty height blocks, { seen := blocks.flatMap (·.2), accepted := [], sent := [] })
+    (runG cfg start hist).1.db.appts k = some a →
+    lastFor k (runG cfg start hist).2.accepted = some a.blob := by
+  intro start h
+  have hinv : GInv start := by
+    refine ⟨just_boot _ _ _ _ (fun k t h => by cases h) ?_, ?_, fun tx h => by cases h⟩
+    · intro b hb x hx
+      exact List.mem_flatMap.2 ⟨b, hb, hx⟩
+    · intro k b h
+      obtain ⟨a, ha, _⟩ := h
+      cases ha
+  exact readsBack_runG cfg hist start hinv (tinv_boot Db.empty height blocks DbInv.empty hnd) hv
+    (fun k a h => by cases h) k a h
+
+/-- **get_appointment_returns_the_last_accepted_version**: in the same setting, what `get_appointment`
+answers to the (authenticated, not expired) owner of a stored, untriggered appointment is the blob of the last
+submission accepted for that locator, byte for byte. -/
+theorem get_appointment_returns_the_last_accepted_version (cfg : Cfg) (height : Nat)
+    (blocks : List (Nat × List TxId)) (hnd : (blocks.map (·.1)).Nodup) (hist : List (Node × Op))
+    (hv : HistoryValid cfg (boot Db.empty height blocks) hist)
+    (signer : Option User) (loc : Loc) (u : User) (ui : UserInfo) (a : Appt) :
+    let start : Tower × Ghost := (boot Db.empty height blocks, { seen := blocks.flatMap (·.2), accepted := [], sent := [] })
+    let s := (runG cfg start hist).1
+    authCheck s signer = .ok (u, ui) → s.db.appts (loc, u) = some a → s.db.trackers (loc, u) = none →
+    getAppointment s signer loc = .appt a.loc a.blob a.tsd ∧
+    lastFor (loc, u) (runG cfg start hist).2.accepted = some a.blob := by
+  intro start s ha hrow hnt
+  exact ⟨readback s signer loc u ui a ha hrow hnt,
+    stored_version_is_the_last_accepted cfg height blocks hnd hist hv (loc, u) a hrow⟩
+
+/-- one accepted submission: the row under its key, if there is one afterwards, is the submitted blob -/
+theorem accepted_row_is_the_submitted_blob (s : Tower) (node : Node) (sg : Option User) (l : Loc) (b : Blob)
+    (t w : Nat) (usr : User) (ui : UserInfo) (ha : authCheck s sg = .ok (usr, ui)) (st us av ex : Nat)
+    (hacc : (addAppointment s node sg l b t w).2.1 = .accepted st us av ex) (a : Appt)
+    (h : (addAppointment s node sg l b t w).1.db.appts (l, usr) = some a) : a.blob = b :=
+  add_row_is_new s node sg l b t w usr ui ha st us av ex hacc a h
+
+set_option maxRecDepth 20000 in
+/-- non-vacuity: two versions accepted for the same locator, a block in between; the second is what is stored -/
+example :
+    let cfg : Cfg := { slots := 3, duration := 10, grace := 3 }
+    let node : Node := { send := fun _ => .ok, get := fun _ => .rpc (-5) }
+    let hist : List (Node × Op) := [(node, .register 7), (node, .add (some 7) 4 (.enc 64 80 300) 20 5),
+      (node, .connect 200 101 []), (node, .add (some 7) 4 (.enc 64 81 2100) 21 6)]
+    let start : Tower × Ghost := (boot Db.empty 100 [], { seen := [], accepted := [], sent := [] })
+    ((runG cfg start hist).1.db.appts (4, 7)).map (·.blob) = some (.enc 64 81 2100) ∧
+    lastFor (4, 7) (runG cfg start hist).2.accepted = some (.enc 64 81 2100) := by decide
 
 end Teos.C08
